@@ -294,6 +294,9 @@ class MQTTProtocol(MQTTBaseProtocol):
         except KeyError as e:
             log.debug("<== {packet:7} (id={response.msgId:04x}) already handled", packet="PUBACK", response=response)
         else:
+            if request.qos != 1:
+                log.error("<== {packet:7} (id={response.msgId:04x}) unexpected for a QoS 2 message", packet="PUBACK", response=response)
+                return
             log.debug("<== {packet:7} (id={response.msgId:04x})", packet="PUBACK", response=response)
             request.alarm.cancel()
             request.deferred.callback(request.msgId)
@@ -312,6 +315,9 @@ class MQTTProtocol(MQTTBaseProtocol):
         except KeyError as e:
             log.debug("<== {packet:7} (id={response.msgId:04x}) already handled", packet="PUBREC", response=response)
         else:
+            if request.qos != 2:
+                log.error("<== {packet:7} (id={response.msgId:04x}) unexpected for a QoS 1 message", packet="PUBREC", response=response)
+                return
             log.debug("<== {packet:7} (id={response.msgId:04x})", packet="PUBREC", response=response)
             request.alarm.cancel()
             del self.factory.windowPublish[self.addr][response.msgId]
